@@ -23,3 +23,15 @@ Lemma pipeline_shape :
   chain_key_flag_users = ["ProcessMessageQueueForDevicePK"; "getOrCreateDeviceCache"] /\
   pipe_returns = (2, 0)%nat.
 Proof. repeat split; reflexivity. Qed.
+
+(* the conditions under which the loop makes its calls (what Model/C08_Window.v's [cstep] follows): a
+   message that does not open is parked again (Add under the error test, block ends in continue: nothing
+   else happens to it), and the flush of the device queue after a success is UNCONDITIONAL - it does not
+   depend on the state of the FIFO, on how often a message has been tried, or on anything else *)
+Lemma pipeline_loop_guards :
+  pipe_loop_guards =
+    ["call WaitForItem"; "if !ok ends return"; "call getOrCreateDeviceCache"; "if device==nil ends continue";
+     "if !hasKnownChainKey ends continue"; "call Emit @ else(device==nil) @ !hasKnownChainKey"; "call processMessage";
+     "if err!=nil ends continue"; "call Add @ err!=nil"; "call Emit @ err!=nil"; "call processDeviceMessagesInQueue";
+     "call Emit"; "if err!=nil ends next"].
+Proof. reflexivity. Qed.
